@@ -853,3 +853,10 @@ CORPUS += [
     V("C06", "pctsp-checker-increase-reversed", _PC, "| (sorted_actions[..., 1:] > sorted_actions[..., :-1])", "| (sorted_actions[..., 1:] < sorted_actions[..., :-1])", "C06.i"),
     V("C06", "eq-pctsp-checker-increase-mirrored", _PC, "| (sorted_actions[..., 1:] > sorted_actions[..., :-1])", "| (sorted_actions[..., :-1] < sorted_actions[..., 1:])", None),
 ]
+
+_FJ = "rl4co/envs/scheduling/fjsp/env.py"
+CORPUS += [
+    V("C03", "fjsp-stepwise-reward-sign", _FJ, 'td["reward"] = -(lbs.max(1).values - td["lbs"].max(1).values)', 'td["reward"] = (lbs.max(1).values - td["lbs"].max(1).values)', "C03.d"),
+    V("C03", "fjsp-stepwise-reward-sum-of-bounds", _FJ, 'td["reward"] = -(lbs.max(1).values - td["lbs"].max(1).values)', 'td["reward"] = -(lbs.max(1).values + td["lbs"].max(1).values)', "C03.d"),
+    V("C03", "eq-fjsp-stepwise-reward-rewritten", _FJ, 'td["reward"] = -(lbs.max(1).values - td["lbs"].max(1).values)', 'td["reward"] = td["lbs"].max(dim=1)[0] - lbs.max(dim=1)[0]', None),
+]
